@@ -140,6 +140,19 @@ var resultChars = "abcdefghijklmnopqrstuvwxyzABCDEFGHIJKLMNOPQRSTUVWXYZ012345678
 
 // a result name; sometimes longer than the 64 characters 13.6 introduced
 func (g *gen) resultName(owner string) string {
+	// names of nothing but white space are names too (the reader's expression admits them): at, just below and beyond the limit
+	if g.r.Chance(1, 25) {
+		lens := []int{1, 3, 64}
+		if g.v <= 5 {
+			lens = append(lens, 65, 80)
+		}
+		s := strings.Repeat(hx.Pick(g.r, []string{" ", " ", "\t"}), hx.Pick(g.r, lens))
+		if len(s) > 64 {
+			g.hazard("overlong-result-name:" + owner)
+			g.touched("13.6:name-limit")
+		}
+		return s
+	}
 	n := g.r.Range(1, 20)
 	long := g.v <= 5 && g.r.Chance(1, 4)
 	if long {
